@@ -1,5 +1,5 @@
 (* C10 — Batches are well formed.  Statements only. *)
-From V Require Import Base.Prelude Base.Val Num.Arith Hub.Types Hub.Model Proofs.ListX Proofs.HubInv Proofs.C10Proofs.
+From V Require Import Base.Prelude Base.Val Num.Arith Hub.Types Hub.Model Proofs.ListX Proofs.HubInv Proofs.C10Proofs Proofs.C10Order.
 Local Open Scope Z_scope.
 
 (* Every pending batch of every reachable state: 1..100 transfers, all of the batch's own chain
@@ -52,3 +52,22 @@ Theorem C10_highest_key_first_partial :
     forall n x y, In x (firstn n cands) -> In y (skipn n cands) -> bcmp (pool_key x) (pool_key y) <> Lt.
 Proof. exact c10_highest_key_first. Qed.
 Print Assumptions C10_highest_key_first_partial.
+
+(* ... and the byte order of the key's fee(32) | id(8) suffix IS the numeric order of (fee, id) for fees
+   below 2^256 and ids below 2^64, so the statement above reads "highest fee first": whatever is selected
+   has a fee at least as high as anything of the same chain and token left behind; equal fees: higher id first. *)
+Theorem C10_pool_key_order :
+  forall x y, s_chain x = s_chain y -> s_ext x = s_ext y ->
+    0 <= s_fee x < 2 ^ 256 -> 0 <= s_fee y < 2 ^ 256 -> (s_id x < 2 ^ 64)%N -> (s_id y < 2 ^ 64)%N ->
+    bcmp (pool_key x) (pool_key y) = match s_fee x ?= s_fee y with Eq => (s_id x ?= s_id y)%N | c => c end.
+Proof. exact pool_key_order. Qed.
+Print Assumptions C10_pool_key_order.
+
+Theorem C10_highest_fee_first :
+  forall chain ext pool n x y,
+    let cands := pool_of_coin chain ext pool in
+    In x (firstn n cands) -> In y (skipn n cands) -> s_chain x = s_chain y ->
+    0 <= s_fee x < 2 ^ 256 -> 0 <= s_fee y < 2 ^ 256 -> (s_id x < 2 ^ 64)%N -> (s_id y < 2 ^ 64)%N ->
+    s_fee y < s_fee x \/ (s_fee x = s_fee y /\ (s_id y <= s_id x)%N).
+Proof. exact c10_highest_fee_first. Qed.
+Print Assumptions C10_highest_fee_first.
